@@ -391,6 +391,11 @@ func runC07(c *Ctx) {
 				c07UseAnsweredWithTransientError(c, i)
 			}
 		}
+		for i := 0; i < c.Pick(12, 600); i++ {
+			if c.Mine(i + 3) {
+				c07FirstRequestsTogether(c, i)
+			}
+		}
 	}
 	var _ = mon.Event{}
 }
@@ -700,4 +705,97 @@ func c07UseAnsweredWithTransientError(c *Ctx, idx int) {
 	}
 	r.Obs("transient_use_error_histories", 1)
 	r.NonTrivial(fmt.Sprintf("use-answered-with-transient-error/c%d/%s/%d", conns, comp, idx%4))
+}
+
+// c07FirstRequestsTogether: on a proxy that has no session yet, clients that differ in compression only (or in protocol
+// version only, or in keyspace only) send their first forwarded request at the same moment, so that the sessions they need are
+// being connected at the same time.  Every reply's echo names the keyspace, version and compression of the backend connection
+// that served it: they must be the client's own.
+func c07FirstRequestsTogether(c *Ctx, idx int) {
+	r := c.R
+	scenario := map[string]interface{}{"kind": "c07-first-requests-together", "idx": idx}
+	c.Step("c07 first requests together idx=%d", idx)
+	bed, err := px.NewBed(px.BedConfig{Hosts: 1 + idx%3, NumConns: 1 + idx%2, Keyspaces: c07Keyspaces, KeepBodies: true, MaxVersion: primitive.ProtocolVersion5})
+	if err != nil {
+		r.Inconc("c07 first requests together: cannot start bed: " + err.Error())
+		return
+	}
+	defer bed.Close()
+	type who struct {
+		ver  primitive.ProtocolVersion
+		comp string
+		ks   string
+		cl   *rawcql.Client
+	}
+	var ws []*who
+	switch idx % 3 {
+	case 0: // compression only
+		ws = []*who{{ver: 4, comp: ""}, {ver: 4, comp: "lz4"}, {ver: 4, comp: "snappy"}, {ver: 4, comp: "lz4"}}
+	case 1: // version only
+		ws = []*who{{ver: 3, comp: ""}, {ver: 4, comp: ""}, {ver: 5, comp: ""}, {ver: 3, comp: ""}}
+	default: // keyspace only (the USE is the first thing that needs the session)
+		ws = []*who{{ver: 4, comp: "lz4", ks: "ks1"}, {ver: 4, comp: "lz4", ks: "ks2"}, {ver: 4, comp: "lz4", ks: ""}, {ver: 4, comp: "lz4", ks: "ks3"}}
+	}
+	for _, w := range ws {
+		cl, err := bed.ReadyClient(w.ver, w.comp)
+		if err != nil {
+			r.Inconc("c07 first requests together: handshake: " + err.Error())
+			return
+		}
+		defer cl.Close()
+		w.cl = cl
+	}
+	start := make(chan struct{})
+	var wg sync.WaitGroup
+	var mu sync.Mutex
+	var bad []string
+	for i, w := range ws {
+		wg.Add(1)
+		go func(i int, w *who) {
+			defer wg.Done()
+			<-start
+			if w.ks != "" {
+				f, err := w.cl.Call(1, &message.Query{Query: "USE " + w.ks, Options: &message.QueryOptions{Consistency: primitive.ConsistencyLevelOne}}, 20*time.Second)
+				if err != nil || f.OpCode != primitive.OpCodeResult {
+					mu.Lock()
+					bad = append(bad, fmt.Sprintf("client %d: USE %s failed", i, w.ks))
+					mu.Unlock()
+					return
+				}
+			}
+			for k := 0; k < 6; k++ {
+				tok := NewTok()
+				f, err := w.cl.CallF(BuildRequest(w.ver, int16(10+k), KQuery, true, tok, primitive.ConsistencyLevelOne), 20*time.Second)
+				if err != nil || f == nil {
+					mu.Lock()
+					bad = append(bad, fmt.Sprintf("client %d (v%d, %q, keyspace %q): request %d got no reply", i, w.ver, w.comp, w.ks, k))
+					mu.Unlock()
+					return
+				}
+				ri := DecodeReply(w.comp, f)
+				r.Eval(1)
+				if ri.Kind != "Rows" || !ri.HasEcho {
+					mu.Lock()
+					bad = append(bad, fmt.Sprintf("client %d (v%d, %q, keyspace %q): request %d answered %s %q", i, w.ver, w.comp, w.ks, k, ri.Kind, ri.ErrMsg))
+					mu.Unlock()
+					return
+				}
+				r.Obs("echoes_checked", 1)
+				if ri.Echo.Ks != w.ks || ri.Echo.Ver != int(w.ver) || ri.Echo.Comp != w.comp {
+					mu.Lock()
+					bad = append(bad, fmt.Sprintf("client %d (v%d, compression %q, keyspace %q): request %d ran on a backend connection with v%d, compression %q, keyspace %q", i, w.ver, w.comp, w.ks, k, ri.Echo.Ver, ri.Echo.Comp, ri.Echo.Ks))
+					mu.Unlock()
+					return
+				}
+			}
+		}(i, w)
+	}
+	close(start)
+	wg.Wait()
+	r.Obs("first_requests_together_cases", 1)
+	r.NonTrivial(fmt.Sprintf("first-requests-together/%d/h%d", idx%3, 1+idx%3))
+	if len(bad) > 0 {
+		r.Violate(mon.Violation{Signature: fmt.Sprintf("C07/first-requests-together/%s", []string{"compression", "version", "keyspace"}[idx%3]),
+			Detail: fmt.Sprintf("clients that differ in %s only sent their first requests at the same moment on a proxy without sessions: %s", []string{"compression", "protocol version", "keyspace"}[idx%3], strings.Join(bad, "; ")), Scenario: scenario})
+	}
 }
